@@ -407,11 +407,11 @@ func ruleParseOrder(c *Ctx, rule string) {
 			if arr, ok := sl.X.(*ssa.Alloc); ok {
 				name, _ := st.ReadLocal("new@" + anm(arr) + "[0].Name")
 				args, _ := st.ReadLocal("new@" + anm(arr) + "[0].Args")
-				if name == `""` && args == "nil" {
+				if (name == `""` || strings.HasPrefix(name, "zero:")) && (args == "nil" || strings.HasPrefix(args, "zero:")) {
 					return // the (infeasible for len==1) empty-map path
 				}
-				mN := regexp.MustCompile(`^next@(t\d+)#1$`).FindStringSubmatch(name)
-				mA := regexp.MustCompile(`^strings\.Fields(@(?:[\w$]+·)?t\d+)?\(github\.com/spf13/cast\.ToString(@(?:[\w$]+·)?t\d+)?\(next@(t\d+)#2\)\)$`).FindStringSubmatch(args)
+				mN := regexp.MustCompile(`^next@((?:[\w$]+·)?t\d+)#1$`).FindStringSubmatch(name)
+				mA := regexp.MustCompile(`^strings\.Fields(@(?:[\w$]+·)?t\d+)?\(github\.com/spf13/cast\.ToString(@(?:[\w$]+·)?t\d+)?\(next@((?:[\w$]+·)?t\d+)#2\)\)$`).FindStringSubmatch(args)
 				if mN != nil {
 					nameOK = true
 				} else {
